@@ -484,38 +484,71 @@ Proof.
   - destruct b as [|d b]; [reflexivity|]. cbn [span]. cbn [stops] in St. rewrite St. reflexivity.
   - cbn [forallb] in Fa. apply andb_prop in Fa as [Fc Fa]. cbn [span]. rewrite Fc, (IH b Fa St). reflexivity.
 Qed.
+Lemma frev_rev s : frev s = rev s.
+Proof. unfold frev. symmetry. apply rev_alt. Qed.
 Lemma strip_end_spec p s r : strip_end p s = Some r <-> s = r ++ p.
 Proof.
-  unfold strip_end. split.
-  - intros H. destruct (strip (rev p) (rev s)) as [x|] eqn:E; [|discriminate]. cbn [option_map] in H. injection H as <-.
+  unfold strip_end. rewrite !frev_rev. split.
+  - intros H. destruct (strip (rev p) (rev s)) as [x|] eqn:E; [|discriminate]. cbn [option_map] in H. rewrite frev_rev in H. injection H as <-.
     apply strip_spec in E. apply (f_equal (@rev byte)) in E. rewrite rev_involutive, rev_app_distr, rev_involutive in E. exact E.
-  - intros ->. rewrite rev_app_distr, strip_app. cbn [option_map]. rewrite rev_involutive. reflexivity.
+  - intros ->. rewrite rev_app_distr, strip_app. cbn [option_map]. rewrite frev_rev, rev_involutive. reflexivity.
 Qed.
 
-Lemma ws_prefix_stops : forall r, stops is_tab (ws_prefix ++ r).
-Proof. intros r. vm_compute. reflexivity. Qed.
 Lemma ws_open_stops : forall r, stops is_digit (ws_open ++ r).
 Proof. intros r. vm_compute. reflexivity. Qed.
 
-(* ws_parse recognises exactly the lines  TABS prefix DIGITS , "LIT")  and returns their parts *)
-Lemma ws_parse_spec l tb ds lit : ws_parse l = Some (tb, ds, lit) ->
-  l = ws_line tb ds lit /\ forallb is_tab tb = true /\ forallb is_digit ds = true /\ ds <> [].
+(* the first occurrence of p depends only on the text up to its end *)
+Lemma strip_none_long p : forall x y y', (length p <= length x)%nat -> strip p (x ++ y) = None -> strip p (x ++ y') = None.
+Proof.
+  induction p as [|a p IH]; intros x y y' L H; [discriminate|].
+  destruct x as [|b x]; [cbn in L; lia|]. cbn [app strip] in *. destruct (Byte.eqb a b); [|reflexivity].
+  apply (IH x y y'); [cbn in L; lia|exact H].
+Qed.
+Definition first_at (p pre : bytes) : Prop := forall t, find_sub p (pre ++ p ++ t) = Some (pre, t).
+Lemma find_sub_spec p : forall s a b, find_sub p s = Some (a, b) -> s = a ++ p ++ b /\ first_at p a.
+Proof.
+  induction s as [|c s IH]; intros a b H.
+  - destruct p as [|a0 p]; [|cbn in H; discriminate]. cbn in H. injection H as <- <-.
+    split; [reflexivity|]. intros t. cbn [app]. destruct t; reflexivity.
+  - cbn [find_sub] in H. destruct (strip p (c :: s)) as [r|] eqn:E.
+    + injection H as <- <-. apply strip_spec in E. split; [exact E|]. intros t. cbn [app].
+      destruct (p ++ t) eqn:Ept; cbn [find_sub]; rewrite <- ?Ept, strip_app; reflexivity.
+    + destruct (find_sub p s) as [[a' b']|] eqn:F; [|discriminate]. injection H as <- <-.
+      destruct (IH _ _ eq_refl) as [-> Fa]. split; [reflexivity|]. intros t. cbn [app find_sub].
+      replace (strip p (c :: a' ++ p ++ t)) with (@None bytes).
+      * rewrite (Fa t). reflexivity.
+      * symmetry. change (c :: a' ++ p ++ t) with ((c :: a') ++ p ++ t). rewrite app_assoc.
+        apply (strip_none_long p ((c :: a') ++ p) b' t); [rewrite app_length; lia|]. rewrite <- app_assoc. exact E.
+Qed.
+Lemma first_at_tabs tb : forallb is_tab tb = true -> first_at ws_prefix tb.
+Proof.
+  induction tb as [|c tb IH]; intros T t.
+  - cbn [app]. change (find_sub ws_prefix (ws_prefix ++ t)) with
+      (match strip ws_prefix (ws_prefix ++ t) with Some r => Some ([], r) | None =>
+         match ws_prefix ++ t with [] => None | c :: s' => match find_sub ws_prefix s' with Some (a, b) => Some (c :: a, b) | None => None end end end).
+    rewrite strip_app. reflexivity.
+  - cbn [forallb] in T. apply andb_prop in T as [Tc T]. unfold is_tab in Tc. apply byte_eqb_eq in Tc. subst c.
+    cbn [app find_sub]. replace (strip ws_prefix (x09 :: tb ++ ws_prefix ++ t)) with (@None bytes) by reflexivity.
+    rewrite (IH T t). reflexivity.
+Qed.
+
+(* ws_parse recognises exactly the lines  PRE prefix DIGITS , "LIT")  whose first call text is where PRE ends *)
+Lemma ws_parse_spec l pre ds lit : ws_parse l = Some (pre, ds, lit) ->
+  l = ws_line pre ds lit /\ first_at ws_prefix pre /\ forallb is_digit ds = true /\ ds <> [].
 Proof.
   unfold ws_parse, ws_line. intros H.
-  destruct (span is_tab l) as [tb0 r] eqn:S1. apply span_spec in S1 as [-> [T1 _]].
-  destruct (strip ws_prefix r) as [r1|] eqn:S2; [|discriminate]. apply strip_spec in S2 as ->.
+  destruct (find_sub ws_prefix l) as [[pre0 r1]|] eqn:S1; [|discriminate]. apply find_sub_spec in S1 as [-> F1].
   destruct (span is_digit r1) as [ds0 r2] eqn:S3. apply span_spec in S3 as [-> [T3 _]].
   destruct ds0 as [|d ds0]; [discriminate|].
   destruct (strip ws_open r2) as [r3|] eqn:S4; [|discriminate]. apply strip_spec in S4 as ->.
   destruct (strip_end ws_close r3) as [lit0|] eqn:S5; [|discriminate]. apply strip_end_spec in S5 as ->.
-  injection H as <- <- <-. split; [|split; [exact T1|split; [exact T3|discriminate]]].
-  reflexivity.
+  injection H as <- <- <-. split; [|split; [exact F1|split; [exact T3|discriminate]]].
+  rewrite <- ?app_assoc. reflexivity.
 Qed.
-Lemma ws_parse_line tb ds lit : forallb is_tab tb = true -> forallb is_digit ds = true -> ds <> [] ->
-  ws_parse (ws_line tb ds lit) = Some (tb, ds, lit).
+Lemma ws_parse_line pre ds lit : first_at ws_prefix pre -> forallb is_digit ds = true -> ds <> [] ->
+  ws_parse (ws_line pre ds lit) = Some (pre, ds, lit).
 Proof.
-  intros T D N. unfold ws_parse, ws_line.
-  rewrite (span_app is_tab tb _ T (ws_prefix_stops _)). rewrite strip_app.
+  intros T D N. unfold ws_parse, ws_line. rewrite (T _).
   rewrite (span_app is_digit ds _ D (ws_open_stops _)). destruct ds as [|d ds]; [congruence|].
   rewrite strip_app. replace (strip_end ws_close (lit ++ ws_close)) with (Some lit) by (symmetry; apply strip_end_spec; reflexivity).
   reflexivity.
@@ -529,7 +562,7 @@ Qed.
 Lemma erase_pos_cases l : erase_pos l = l \/ exists y, erase_pos l = y ++ pos_erased.
 Proof.
   unfold erase_pos. destruct (span is_tab l) as [tb r]. destruct (strip err_prefix r); [|left; reflexivity].
-  destruct (strip [x7d] (rev l)) as [a|]; [|left; reflexivity]. destruct (span is_digit a) as [c a1].
+  destruct (strip [x7d] (frev l)) as [a|]; [|left; reflexivity]. destruct (span is_digit a) as [c a1].
   destruct (strip col_rev a1) as [a2|]; [|left; reflexivity]. destruct (span is_digit a2) as [ln a3].
   destruct (strip line_rev a3) as [a4|]; [|left; reflexivity]. right. eexists. reflexivity.
 Qed.
@@ -541,7 +574,7 @@ Proof.
   rewrite rev_app_distr in R. cbn [pos_erased] in R. vm_compute (rev (bs ", Line: , Col: }")) in R. cbn [app] in R. discriminate.
 Qed.
 
-(* erase the literal of a WriteString line, the positions of any other line *)
+(* erase the literal of a WriteString call, the positions of any other statement *)
 Definition erase_lop (o : op) : op := match o with OLit i _ => OLit i [] | OCode c => OCode (erase_pos c) | x => x end.
 
 Lemma skel_line_ws l tb ds lit : ws_parse l = Some (tb, ds, lit) -> ws_parse (skel_line l) = Some (tb, ds, []).
@@ -551,28 +584,32 @@ Qed.
 Lemma skel_line_not_ws l : ws_parse l = None -> ws_parse (skel_line l) = None.
 Proof. intros H. unfold skel_line. rewrite H. apply erase_pos_not_ws. exact H. Qed.
 
-(* ws_parse recognises exactly the WriteString lines; the skeleton of such a line is the line with an empty literal;
-   the skeleton of any other line is the line without its error position, which is never a WriteString line *)
+(* ws_parse recognises exactly the WriteString lines (in particular every line TABS call); the skeleton of such a line
+   is the line with an empty literal; the skeleton of any other line is the line without its error position, which is
+   never a WriteString line *)
 Theorem ws_recognition :
-  (forall l tb ds lit, ws_parse l = Some (tb, ds, lit) ->
-     l = ws_line tb ds lit /\ forallb is_tab tb = true /\ forallb is_digit ds = true /\ ds <> []) /\
-  (forall tb ds lit, forallb is_tab tb = true -> forallb is_digit ds = true -> ds <> [] ->
-     ws_parse (ws_line tb ds lit) = Some (tb, ds, lit) /\ skel_line (ws_line tb ds lit) = ws_line tb ds []) /\
+  (forall l pre ds lit, ws_parse l = Some (pre, ds, lit) ->
+     l = ws_line pre ds lit /\ (forall t, find_sub ws_prefix (pre ++ ws_prefix ++ t) = Some (pre, t)) /\
+     forallb is_digit ds = true /\ ds <> []) /\
+  (forall pre ds lit, (forallb is_tab pre = true \/ forall t, find_sub ws_prefix (pre ++ ws_prefix ++ t) = Some (pre, t)) ->
+     forallb is_digit ds = true -> ds <> [] ->
+     ws_parse (ws_line pre ds lit) = Some (pre, ds, lit) /\ skel_line (ws_line pre ds lit) = ws_line pre ds []) /\
   (forall l, ws_parse l = None -> skel_line l = erase_pos l /\ ws_parse (erase_pos l) = None).
 Proof.
   split; [exact ws_parse_spec|]. split.
-  - intros tb ds lit T D N. split; [apply ws_parse_line; assumption|]. unfold skel_line. rewrite ws_parse_line by assumption. reflexivity.
+  - intros pre ds lit T D N. assert (F : first_at ws_prefix pre) by (destruct T as [T|T]; [apply first_at_tabs; exact T|exact T]).
+    split; [apply ws_parse_line; assumption|]. unfold skel_line. rewrite ws_parse_line by assumption. reflexivity.
   - intros l H. split; [unfold skel_line; rewrite H; reflexivity|apply erase_pos_not_ws; exact H].
 Qed.
 
-Lemma skel_line_op l l' : skel_line l = skel_line l' -> erase_lop (op_of_line l) = erase_lop (op_of_line l').
+Lemma skel_line_op l l' : skel_line l = skel_line l' -> map erase_lop (ops_of_line l) = map erase_lop (ops_of_line l').
 Proof.
-  intros E. unfold op_of_line.
+  intros E. unfold ops_of_line.
   destruct (ws_parse l) as [[[tb ds] lit]|] eqn:W; destruct (ws_parse l') as [[[tb' ds'] lit']|] eqn:W'.
-  - apply skel_line_ws in W, W'. rewrite E in W. rewrite W in W'. injection W' as _ ->. reflexivity.
+  - apply skel_line_ws in W, W'. rewrite E in W. rewrite W in W'. injection W' as -> ->. reflexivity.
   - apply skel_line_ws in W. apply skel_line_not_ws in W'. rewrite E in W. congruence.
   - apply skel_line_ws in W'. apply skel_line_not_ws in W. rewrite E in W. congruence.
-  - cbn [erase_lop]. unfold skel_line in E. rewrite W, W' in E. rewrite E. reflexivity.
+  - cbn [map erase_lop]. unfold skel_line in E. rewrite W, W' in E. rewrite E. reflexivity.
 Qed.
 
 (* lines hold no LF, and neither do their skeletons *)
@@ -596,12 +633,12 @@ Qed.
 Lemma erase_pos_no_lf l : no_lf l = true -> no_lf (erase_pos l) = true.
 Proof.
   intros H. unfold erase_pos. destruct (span is_tab l) as [tb r]. destruct (strip err_prefix r); [|exact H].
-  destruct (strip [x7d] (rev l)) as [a|] eqn:S1; [|exact H]. destruct (span is_digit a) as [c a1] eqn:S2.
+  destruct (strip [x7d] (frev l)) as [a|] eqn:S1; [|exact H]. rewrite frev_rev in S1. destruct (span is_digit a) as [c a1] eqn:S2.
   destruct (strip col_rev a1) as [a2|] eqn:S3; [|exact H]. destruct (span is_digit a2) as [ln a3] eqn:S4.
   destruct (strip line_rev a3) as [a4|] eqn:S5; [|exact H].
   apply strip_spec in S1, S3, S5. apply span_spec in S2 as [-> _]. apply span_spec in S4 as [-> _]. subst a1 a3.
   rewrite <- no_lf_rev, S1 in H. rewrite !no_lf_app in H.
-  repeat (apply andb_prop in H as [? H]). rewrite no_lf_app, no_lf_rev, H. vm_compute. reflexivity.
+  repeat (apply andb_prop in H as [? H]). rewrite frev_rev, no_lf_app, no_lf_rev, H. vm_compute. reflexivity.
 Qed.
 Lemma skel_line_no_lf l : no_lf l = true -> no_lf (skel_line l) = true.
 Proof.
@@ -626,7 +663,7 @@ Proof.
   pose proof (code_lines_no_lf c) as H. pose proof (code_lines_no_lf c') as H'.
   apply join_lf_inj in E.
   - revert E H H'. generalize (code_lines c) (code_lines c'). clear. induction l as [|x l IH]; intros l' E; destruct l' as [|x' l']; try discriminate; [reflexivity|].
-    cbn [map] in *. injection E as Ex El. intros H H'. rewrite (skel_line_op _ _ Ex). f_equal.
+    cbn [map flat_map] in *. injection E as Ex El. intros H H'. rewrite !map_app, (skel_line_op _ _ Ex). f_equal.
     cbn [forallb] in H, H'. apply andb_prop in H as [_ H]. apply andb_prop in H' as [_ H']. apply IH; assumption.
   - destruct (code_lines c); [congruence|discriminate].
   - destruct (code_lines c'); [congruence|discriminate].
@@ -640,8 +677,8 @@ Qed.
 Lemma code_lits_no_lf c : forallb no_lf (op_lits (ops_of_code c)) = true.
 Proof.
   unfold ops_of_code. pose proof (code_lines_no_lf c) as H. induction (code_lines c) as [|l L IH]; [reflexivity|].
-  cbn [forallb map] in *. apply andb_prop in H as [Hl H]. unfold op_of_line at 1.
-  destruct (ws_parse l) as [[[tb ds] lit]|] eqn:W; cbn [op_lits]; [|apply IH; exact H].
+  cbn [forallb flat_map] in *. apply andb_prop in H as [Hl H]. unfold ops_of_line at 1.
+  destruct (ws_parse l) as [[[tb ds] lit]|] eqn:W; cbn [op_lits app]; [|apply IH; exact H].
   cbn [forallb]. rewrite (IH H), andb_true_r. apply ws_parse_spec in W as [-> _]. unfold ws_line in Hl. rewrite !no_lf_app in Hl.
   repeat (apply andb_prop in Hl as [? Hl]). assumption.
 Qed.
